@@ -23,17 +23,21 @@ def deep_round_factory(tol):
     for i,j in enumerate(args):
       if isinstance(j, float): _args[i] = round(j, tol) # don't round int
       elif isinstance(j, (str, unicode, type(BaseException()))): continue
-      elif isinstance(j, dict): _args[i] = deep_round(**j)[1]
+      elif isinstance(j, dict): # keys need not be strings
+        _args[i] = dict(zip(j.keys(), deep_round(*j.values())[0]))
       elif isiterable(j): #XXX: fails on the above, so don't iterate them
         jtype = type(j)
-        _args[i] = jtype(deep_round(*j)[0])
+        try: _args[i] = jtype(deep_round(*j)[0])
+        except TypeError: pass # can't be rebuilt (e.g. range), so don't round
     for i,j in kwds.items():
       if isinstance(j, float): _kwds[i] = round(j, tol)
       elif isinstance(j, (str, unicode, type(BaseException()))): continue
-      elif isinstance(j, dict): _kwds[i] = deep_round(**j)[1]
+      elif isinstance(j, dict): # keys need not be strings
+        _kwds[i] = dict(zip(j.keys(), deep_round(*j.values())[0]))
       elif isiterable(j): #XXX: fails on the above, so don't iterate them
         jtype = type(j)
-        _kwds[i] = jtype(deep_round(*j)[0])
+        try: _kwds[i] = jtype(deep_round(*j)[0])
+        except TypeError: pass # can't be rebuilt (e.g. range), so don't round
     return argstype(_args), _kwds
   return deep_round
 
@@ -146,6 +150,7 @@ def shallow_round_factory(tol):
   """helper function for shallow_round (a factory for shallow_round functions)"""
   def around(iterable, tol):
     if isinstance(iterable, float): return round(iterable, tol)
+    if isinstance(iterable, (str, bytes)): return iterable # don't split text
     from klepto.tools import isiterable
     if not isiterable(iterable): return iterable
     itype = type(iterable)
